@@ -77,9 +77,12 @@ def b1(led, rid, ctx):
 
 
 def next_solution(lib):
+    """SolutionIterator::next_solution with the private helpers of its file spliced in"""
+    from ..inline import view
     for f in lib.fns.values():
         if f.name == "next_solution" and (f.self_adt or "").endswith("SolutionIterator"):
-            return f
+            return view(lib, f, want=lambda g: g.file == f.file and g.kind != "Closure" and g.vis != "pub"
+                        and g.name != "get_blocking_clause")
     raise AnchorMissing("SolutionIterator::next_solution")
 
 
@@ -163,6 +166,13 @@ def b3(led, rid, ctx):
                 truth = not truth
             if c.k == "call" and c.a.name == "is_err":
                 add_err = truth
+            # the `?` form: the Break edge of branch(add_clause(..)) is the failure
+            if cond.k == "discr":
+                inner = peel(cond.a, calls=None)
+                if inner.k == "call" and inner.a.name == "branch" and inner.b and \
+                        any(x.name == "add_clause" for x in inner.b[0].calls()):
+                    brk = (val == 1) if val is not None else (1 not in (others or []))
+                    add_err = brk if add_err is None else (add_err or brk)
             if c.k == "proj" and c.b and c.b[-1].get("name") == "has_solution":
                 has_sol = truth
         ret = p.ret.b if (p.ret is not None and p.ret.k == "agg") else None
